@@ -136,6 +136,11 @@ void cache_interface::store_page(string const &key,int timeout)
 
 	context_->response().finalize();
 
+	// The output stream fails once the client is gone and drops whatever is written
+	// afterwards: what was copied so far is only a part of the page, never cache it
+	if(!context_->response().out())
+		return;
+
 	std::string r_key = (page_compression_used_ ? "_Z:" : "_U:") + key;
 	add_trigger(key);
 	cache_module_->store(r_key,context_->response().copied_data(),triggers_,deadtime(timeout));
